@@ -474,6 +474,56 @@ def h_verifydir(p):
     return dict(calls=list(calls), exc=exc, fails=fails)
 
 
+def h_loadrace(p):
+    """two threads of one process load the module file of the same template at the same time (compat.load_module): every
+    schedule of the two imports; the import of a module is a long step during which the other thread may run"""
+    from .C16 import Sched
+    CM = common.mako("compat")
+    s = Sched(p)
+    registry = {"os": object()}         # stands for sys.modules: template modules are not meant to live in it
+
+    class Loader:
+        def exec_module(self, module):
+            s.point("exec_module: start")
+            module.found_by_name = registry.get(module.__name__)     # module-level code may look its own module up by name
+            s.point("exec_module: running")
+            module.body_ran = True
+
+    saved = (CM.util, CM.sys)
+    CM.util = types.SimpleNamespace(spec_from_file_location=lambda mid, path: types.SimpleNamespace(name=mid, loader=Loader()),
+                                    module_from_spec=lambda spec: types.ModuleType(spec.name))
+    CM.sys = types.SimpleNamespace(modules=registry, exc_info=saved[1].exc_info)
+    try:
+        a = s.spawn("A", lambda: CM.load_module("u_html", "/mods/u.html.py"))
+        b = s.spawn("B", lambda: CM.load_module("u_html", "/mods/u.html.py"))
+        s.run()
+    finally:
+        CM.util, CM.sys = saved
+    return dict(a=a, b=b, trace=list(s.trace), registry=registry)
+
+
+def on_loadrace(p, r, exc, acc):
+    if exc is not None:
+        acc.candidate(kind="loadrace-harness-exception", input=None, detail="%s: %s" % (type(exc).__name__, str(exc)[:200]))
+        return
+    acc.tags["ran"] += 1
+    acc.vcs += 3
+    sched = [t for t, _w in r["trace"]]
+    desc = dict(schedule="".join(sched), steps=["%s:%s" % x for x in r["trace"]])
+    for t in (r["a"], r["b"]):
+        if t.exc is not None:
+            acc.candidate(kind="concurrent-load-raises", input=desc, detail="thread %s: %s: %s" % (t.name, type(t.exc).__name__, t.exc))
+            return
+        if not getattr(t.result, "body_ran", False):
+            acc.candidate(kind="concurrent-load-incomplete", input=desc, detail="thread %s got a module whose body did not run" % t.name)
+            return
+    if r["a"].result is r["b"].result:
+        acc.candidate(kind="concurrent-load-shares-module", input=desc, detail="both loads returned one module object")
+    if set(r["registry"]) != {"os"}:
+        acc.candidate(kind="concurrent-load-leaves-registry-entry", input=desc, detail="sys.modules keys afterwards: %r" % sorted(r["registry"]))
+    acc.sample(desc)
+
+
 def on_verifydir(p, r, exc, acc):
     if exc is not None:
         acc.candidate(kind="verify-directory-exception", input=None, detail="%s: %s" % (type(exc).__name__, str(exc)[:200]))
@@ -580,6 +630,55 @@ try:
         if rewritten != due: bad = "module %%s although a rewrite was %%s" %% ("rewritten" if rewritten else "reused", "due" if due else "not due")
         elif (rewritten or CASE["module_generated_from_version"] == CASE["source_version"]) and out != "version-new": bad = "renders %%r" %% out
         elif CASE["module_writer"] and len(calls) != (1 if due else 0): bad = "module_writer called %%d times" %% len(calls)
+    elif "schedule" in CASE:
+        # two real threads load one module file; the module's own code holds the first import open until the second has finished
+        import threading
+        from mako import compat
+        mp = os.path.join(base, "u_html.py")
+        open(mp, "w").write("import builtins\\nbuiltins._c15_rendezvous()\\nvalue = 1\\n")
+        import builtins
+        first_inside, second_done = threading.Event(), threading.Event()
+        order = []
+        def rendezvous():
+            order.append(threading.current_thread().name)
+            if len(order) == 1:
+                first_inside.set(); second_done.wait(5)
+        builtins._c15_rendezvous = rendezvous
+        errs, keys_before = [], set(sys.modules)
+        def load(name):
+            try:
+                m = compat.load_module("u_html", mp)
+                assert m.value == 1
+            except BaseException as e:
+                errs.append("%%s: %%s: %%r" %% (name, type(e).__name__, e))
+        ta = threading.Thread(target=load, args=("A",), name="A"); ta.start()
+        first_inside.wait(5)
+        tb = threading.Thread(target=load, args=("B",), name="B"); tb.start(); tb.join(); second_done.set(); ta.join()
+        print("errors:", errs, " new sys.modules keys:", sorted(set(sys.modules) - keys_before))
+        if errs: bad = "concurrent load of one module file failed: " + "; ".join(errs)
+        elif "u_html" in set(sys.modules) - keys_before: bad = "the template module was left in sys.modules"
+    elif "makedirs_outcomes" in CASE:
+        from mako import util
+        outcomes = list(CASE["makedirs_outcomes"])
+        target = os.path.join(base, "mods", "sub")
+        real_makedirs = os.makedirs
+        calls = [0]
+        def flaky(d, mode=0o777, exist_ok=False):
+            i = calls[0]; calls[0] += 1
+            if i < len(outcomes) and outcomes[i] == "fail":
+                raise OSError("transient failure (e.g. another process is creating the same parent directory)")
+            return real_makedirs(d, mode)
+        os.makedirs = flaky
+        try:
+            util.verify_directory(target); raised = False
+        except OSError:
+            raised = True
+        finally:
+            os.makedirs = real_makedirs
+        nfail = outcomes.count("fail")
+        print("makedirs attempts made:", calls[0], "raised:", raised, "directory exists:", os.path.isdir(target))
+        if raised and nfail <= 5: bad = "verify_directory gave up after %%d failed attempt(s); it retries until more than five have failed" %% nfail
+        elif not raised and not os.path.isdir(target): bad = "verify_directory returned without the directory existing"
     else:
         # crash scenario: kill the writer at the recorded point by making the corresponding call raise
         open(src, "w").write("version-old")
@@ -662,7 +761,8 @@ def run(check, tier):
         "os.fdopen / open(...,'w') return a buffered file whose data reaches the file only at flush/close",
         "code generation is stubbed: _compile returns a source object carrying the version of the text it was generated from; "
         "compat.load_module returns a module for a complete file and raises SyntaxError for a truncated one",
-        "concurrent constructors are covered only as 'a second constructor run on the state left by a crash'")
+        "concurrent constructors: 'a second constructor run on the state left by a crash', plus two threads inside compat.load_module for "
+        "the same module id under every schedule (importlib replaced by stubs whose exec_module yields to the scheduler)")
     check.not_claimed("real kernels / file systems / NFS", "simultaneous writers beyond the sequentialisation above", "verify_directory races")
     jobs = [("C15-decide", h_decide, on_decide, "staleness decision from an arbitrary module/source state",
              dict(state="module exists?, module mtime, source mtime, magic equal?, versions, module_writer?"), ("rewritten", "reused")),
@@ -671,6 +771,8 @@ def run(check, tier):
             ("C15-fault", h_crash("fault"), on_crash, "a symbolic environment call fails with OSError, then a later constructor runs",
              dict(fault_points="all environment calls"), ("fault", "completed"))]
     jobs.append(("C15-verifydir", h_verifydir, on_verifydir, "verify_directory with symbolic makedirs failures", dict(attempts=8), ("ran",)))
+    jobs.append(("C15-loadrace", h_loadrace, on_loadrace, "two threads load the same module file: every schedule of the two imports",
+                 dict(threads=2, scheduling_points="start and middle of each module execution"), ("ran",)))
     if tier == "thorough":
         jobs.append(("C15-double", h_double, on_crash, "two successive writers die at independent symbolic points, then a third constructor runs",
                      dict(crash_points="all x all"), ("crash",)))
